@@ -96,13 +96,36 @@ def _collect_targets():
     return out
 
 
-def kind_of(param: str, value) -> str | None:
+# Classification by USE where the parameter name misleads: these "timeouts" / "times" are the period of a
+# self-rearming timer (the handler of the timer event schedules the next one `self.now + <param>` later), so
+# they get the periodic vocabulary (never 0, never 1 ns: a zero period cannot advance time by definition).
+# Audit of every `Event(time=self.now + self._<param>, target=self)` site of the library (2026-09, e56b2f3):
+#   class              parameter               re-armed by                                  event
+USE_OVERRIDES: dict[tuple[str, str], str] = {
+    ("LeaderElection", "election_timeout"): "periodic",   # _handle_timeout_check (non-leader period)   ElectionTimeoutCheck
+    ("RaftNode", "election_timeout_min"): "periodic",     # _schedule_election_timeout after each timeout RaftElectionTimeout
+    ("RaftNode", "election_timeout_max"): "periodic",     #   (uniform(min, max) is the period of repeated elections)
+    ("ConnectionPool", "idle_timeout"): "periodic",       # _handle_idle_timeout re-arms at min_connections _pool_idle_timeout
+    ("BreakdownScheduler", "mean_time_to_failure"): "periodic",  # _Breakdown -> _RepairComplete -> _Breakdown cycle
+    ("BreakdownScheduler", "mean_repair_time"): "periodic",      #   (the two delays are the period of the up/down cycle)
+}
+# Audited and left as one-shot "time" (armed once per request / grant / batch, bounded re-arming): Client / PooledClient /
+# Sidecar / APIGateway / Saga / TimeoutWrapper / Fallback / Bulkhead timeouts, HealthChecker.timeout, Hedge.hedge_delay
+# (<= max_hedges), retry delays (<= max_attempts), PaxosNode.retry_delay (a retry needs a network round trip),
+# MembershipProtocol.suspicion_timeout, DistributedLock.lease_duration (one expiry per grant), BatchProcessor.timeout_s,
+# MessageQueue.redelivery_delay (<= max_redeliveries), InventoryBuffer / PerishableInventory.lead_time, AutoScaler cooldowns,
+# ConsumerGroup.rebalance_delay, GC pauses.  Everything named interval / period / tick / heartbeat is periodic by name.
+
+
+def kind_of(param: str, value, cls: str | None = None) -> str | None:
     if isinstance(value, bool) or not isinstance(value, (int, float)):
         return None
     if param in _SKIP_NAMES:
         return None
     if value != value or value in (float("inf"), float("-inf")):
         return None
+    if cls is not None and (cls, param) in USE_OVERRIDES:
+        return USE_OVERRIDES[(cls, param)]
     if _PROB_RE.search(param):
         return "prob"
     is_time = bool(_TIME_RE.search(param))
@@ -172,7 +195,7 @@ class _Interposer:
                 bound.apply_defaults()
                 changed = []
                 for pname, val in list(bound.arguments.items()):
-                    k = kind_of(pname, val)
+                    k = kind_of(pname, val, cls.__name__)
                     if k is None:
                         continue
                     ordinal = me._n
@@ -181,6 +204,11 @@ class _Interposer:
                     step = me.plan.get(ordinal)
                     if step is not None and step.get("cls") == cls.__name__ and step.get("param") == pname:
                         new = step["value"]
+                        if k == "periodic" and float(new) < 2e-9:
+                            # an explicit (older) plan asks for a zero / 1 ns period: outside the vocabulary
+                            me.applied.append({"ordinal": ordinal, "cls": cls.__name__, "param": pname, "from": val, "to": new,
+                                               "kind": k, "rejected": "zero / 1 ns period is outside the mutation vocabulary"})
+                            continue
                         if isinstance(val, int) and not isinstance(val, bool) and k == "count":
                             new = int(new)
                         bound.arguments[pname] = new
